@@ -20,12 +20,24 @@ def _worker(task):
         labels = sorted(set().union(*[S.labels(f)[0] | S.labels(f)[1] for f in phis]) | set(task.get('extra_labels', ())))
         present = [l for l in labels if l not in task.get('drop_labels', ())]
         k = task['k']
-        lab = EN.EvalLab(chk, task['n'], k, task.get('c', 0), labels=labels, max_perm=task.get('max_perm', 1), timeout_ms=task.get('timeout_ms', 300000))
+        lab = EN.EvalLab(chk, task['n'], k, task.get('c', 0), labels=labels, max_perm=task.get('max_perm', 1), timeout_ms=task.get('timeout_ms', 60000))
         texts = task.get('texts') or [S.show(f) for f in phis]
         loops = task.get('self_loops', True)
+        if task.get('assume_no_steady'): lab.pre.append(lab.M.steady() == 0)
         specs = [lab.spec(f, loops) for f in phis] if task.get('expect', 'ok') == 'ok' else None
         entry = task['entry']
-        ps = lab.paths(lambda ctx: lab.call_entry(entry, texts, present))
+        cf = task.get('ctx_formulas') or {}
+        def scenario(ctx):
+            # context sets that are themselves raw results of closed sub-formulas (C10)
+            for l, psi in cf.items():
+                pl = sorted(S.labels(psi)[0] | S.labels(psi)[1])
+                rr = lab.call_entry('multi_ext_dirty', [S.show(psi)], pl)
+                kind, sets = EN.result_sets(rr)
+                if kind != 'ok': raise Unsupported('context formula failed: ' + str(sets))
+                lab.sets[l] = sets[0]
+            if entry == 'eval_node_steady': return _eval_node_steady(lab, texts, present)
+            return lab.call_entry(entry, texts, present + sorted(cf))
+        ps = lab.paths(scenario)
         for o, v, ctx in ps:
             rec = {'outcome': o, 'decisions': len(ctx.taken), 'choices': [c for c in ctx.choices][:8]}
             if o == 'panic':
@@ -46,6 +58,15 @@ def _worker(task):
                             tw = lab.spec(task['twin'][i], loops)
                             okt, _ = ctx.valid(r == tw); rr['twin_sat'] = not okt
                         if not ok: rr['witness'] = _witness(lab, m, r, sp)
+                        if task.get('check_unit') and ok:
+                            ok2, m2 = ctx.valid(z3.And((r & ~lab.M.unit) == 0, lab.M.independent_of_copies(r)))
+                            rr['inside_unit_and_independent'] = ok2
+                            if not ok2: rr['holds'] = False; rr['witness'] = _witness(lab, m2, r, r & lab.M.unit)
+                        rec['results'].append(rr)
+                    for (i, j) in task.get('equal_pairs', ()):
+                        ok, m = ctx.valid(sets[i] == sets[j])
+                        rr = {'i': i, 'j': j, 'holds': ok, 's': 0.0, 'pair': True}
+                        if not ok: rr['witness'] = _witness(lab, m, sets[i], sets[j])
                         rec['results'].append(rr)
             # the path condition must be satisfiable (vacuity guard) -- checked in lab.paths
             out['paths'].append(rec)
@@ -57,6 +78,24 @@ def _worker(task):
         out['error'] = 'error: ' + repr(e)[:300] + ' ' + traceback.format_exc()[-800:]
     out['s'] = round(time.time() - t0, 2)
     return out
+
+def _eval_node_steady(lab, texts, present):
+    """eval_node called directly with two different free symbolic sets as the steady-state argument; returns Ok([r1, r2])"""
+    from .mirsym.interp import Ptr, Cell, Agg, RVec, RMap, FnItem, mkref
+    from .mirsym import biomodel
+    I = lab.I; M = lab.M
+    outs = []
+    for tag in ('1', '2'):
+        st = z3.BitVec('STEADY' + tag, M.W)
+        t = I.run(I.fn('parse_and_minimize_extended_formula'), [Ptr(Cell(biomodel.CtxObj(M))), mkref(texts[0])])
+        if t.variant != 0: raise Unsupported('preprocessing failed')
+        tree = t.fields[0]
+        ec = I.run(I.fn('from_single_tree', 'EvalContext'), [Ptr(Cell(tree))])
+        props = RMap('HashMap', [[__import__('hv.mirsym.interp', fromlist=['mkstr']).mkstr(l), lab.sets[l]] for l in present])
+        I.run(I.fn('extend_context_with_wild_cards', 'EvalContext'), [Ptr(Cell(ec)), Ptr(Cell(props)), Ptr(Cell(props))])
+        r = I.run(I.fn('eval_node'), [tree, Ptr(Cell(biomodel.GraphObj(M))), Ptr(Cell(ec)), Ptr(Cell(st & M.unit)), Ptr(Cell(FnItem('mc_utils::dont_track_progress')))])
+        outs.append(r)
+    return Agg('Result', 0, [RVec(outs)])
 
 def _witness(lab, m, r, sp):
     M = lab.M; n = lab.n
@@ -78,11 +117,9 @@ def _witness(lab, m, r, sp):
 def _path_witness(lab, ctx):
     """a concrete model of the path condition with every colour valid: per colour the T table and the context sets"""
     M = lab.M; n = lab.n
-    ctx.solver.push()
-    if lab.U is not None: ctx.solver.add(lab.U == z3.BitVecVal((1 << (1 << lab.c)) - 1, 1 << lab.c))
-    r = ctx.solver.check()
-    if r != z3.sat: ctx.solver.pop(); return None
-    m = ctx.solver.model(); ctx.solver.pop()
+    extra = [lab.U == z3.BitVecVal((1 << (1 << lab.c)) - 1, 1 << lab.c)] if lab.U is not None else []
+    r, m = ctx._check(extra)
+    if r != z3.sat: return None
     cols = []
     for col in range(1 << lab.c):
         T = {}
@@ -124,6 +161,8 @@ def run_tasks(chk, pid, tasks, procs=None, signature='semantics', expect_paths=N
         chk.queries += res.get('queries', 0); chk.paths += len(res['paths'])
         u = res.get('unwinding') or {}
         chk.unwinding['assertions'] += u.get('assertions', 0); chk.unwinding['unsat'] += u.get('unsat', 0)
+        if res['error'] and 'solver: unknown' in res['error']:
+            chk.obligation(base + ' [solver timeout]', 'E-MIR/fork', 'timeout', res['s']); continue
         if res['error']:
             chk.obligation(base + ' [' + res['error'][:120] + ']', 'E-MIR/fork', 'inconclusive', res['s']); print('  ' + base + '\n    ' + res['error'], flush=True); continue
         handler = task.get('handler', 'equiv')
@@ -140,6 +179,8 @@ def _record_equiv(chk, pid, base, task, res, signature):
             bad = True
             _confirm_error(chk, pid, base, task, p); continue
         for rr in p['results']:
+            if rr.get('pair') and not rr['holds']:
+                bad = True; _confirm_pair(chk, pid, base, task, rr, signature); continue
             worst += rr['s']
             if 'twin_sat' in rr: twins.append(rr['twin_sat'])
             if not rr['holds']:
@@ -170,7 +211,7 @@ def _confirm_cex(chk, pid, base, task, rr, signature):
         chk.obligation(base + ' (counterexample at an invalid colour does not reproduce on the constrained native instance)', 'E-MIR/fork', 'inconclusive'); return
     n, T, sets = _concrete(task, w)
     entry = {'multi_ext_dirty': 'ext_multi_dirty', 'multi_ext': 'ext_multi', 'ext': 'ext', 'ext_dirty': 'ext_dirty', 'unsafe_ex': 'unsafe_ex'}.get(task['entry'], 'ext_multi_dirty')
-    res = native_batch(n, T, sets, task['phis'], task['k'], entry, task.get('texts'), self_loops=task.get('self_loops', True))
+    res = native_batch(n, T, sets, task['phis'], task['k'], entry, task.get('texts'), self_loops=task.get('self_loops', True), ctx_formulas=task.get('ctx_formulas'))
     i = rr['i']
     if res['error'] or res['native'][i] != res['spec'][i]:
         chk.obligation(base, 'E-MIR/fork', 'violated')
@@ -180,12 +221,29 @@ def _confirm_cex(chk, pid, base, task, rr, signature):
         print(f'  non-reproducing E-MIR counterexample: {base}: {res}', flush=True)
         chk.obligation(base + ' (E-MIR counterexample does not reproduce natively: library model or encoding error)', 'E-MIR/fork', 'inconclusive')
 
-def native_batch(n, T, sets, phis, k, entry, texts=None, self_loops=True):
+def _confirm_pair(chk, pid, base, task, rr, signature):
+    w = rr['witness']; chk.native_replays += 1
+    if not w['colour_valid']:
+        chk.obligation(base + ' (pair counterexample at an invalid colour)', 'E-MIR/fork', 'inconclusive'); return
+    n, T, sets = _concrete(task, w)
+    res = native_batch(n, T, sets, task['phis'], task['k'], 'ext_multi_dirty', task.get('texts'))
+    i, j = rr['i'], rr['j']
+    if res['error'] or res['native'][i] != res['native'][j]:
+        chk.obligation(base, 'E-MIR/fork', 'violated')
+        chk.violation(base, signature + '-pair', {'formulas': [S.show(f) for f in task['phis']], 'pair': [i, j], 'witness': w, 'native': res},
+                      f"{S.show(task['phis'][i])} and {S.show(task['phis'][j])} should coincide but natively give {res['native'][i] if not res['error'] else res['error']} and {res['native'][j] if not res['error'] else ''}")
+    else:
+        chk.obligation(base + ' (pair counterexample does not reproduce natively)', 'E-MIR/fork', 'inconclusive')
+
+def native_batch(n, T, sets, phis, k, entry, texts=None, self_loops=True, ctx_formulas=None):
     from . import uni
     names = [f'v{i}' for i in range(n)]
     multi = 'multi' in entry
     job = {'op': 'mc', 'aeon': RP.concrete_aeon(n, T, names), 'k': k, 'context': {l: {'t': 'expr', 'e': RP.dnf(names, st, n)} for l, st in sets.items()},
            'runs': [{'entry': entry, 'formulas': texts or [S.show(f) for f in phis]}] if multi else [{'entry': entry, 'formulas': [t]} for t in (texts or [S.show(f) for f in phis])]}
+    if ctx_formulas:
+        job['context_order'] = list(job['context']) + list(ctx_formulas)
+        for l, psi in ctx_formulas.items(): job['context'][l] = {'t': 'mc', 'f': S.show(psi)}
     ans = front.native([job])[0]
     out = {'error': None, 'native': [], 'spec': [sorted(RP.concrete_spec(n, T, sets, f, names, self_loops)) for f in phis], 'aeon': job['aeon'], 'context': job['context']}
     if 'fatal' in ans or 'fatal_panic' in ans: out['error'] = str(ans); return out
